@@ -39,6 +39,8 @@ type caStub struct {
 	NCerts   int      // certificates per request (default 1)
 	Comments []string // comments returned per call (nil: none)
 	ValidAt  uint64   // base time for issued certificates
+	Idempotent bool   // the same request yields byte-identical certificates (serial by position, deterministic CA signature)
+	cache    map[string]ssh.PublicKey
 	Granted  []uint64 // per certificate of one reply: validity granted instead of the requested one (0 / missing = as requested)
 	events   *[]string
 }
@@ -76,10 +78,27 @@ func (s *caStub) Sign(ctx context.Context, req *proto.SSHCertificateSigningReque
 		if i < len(s.Granted) && s.Granted[i] != 0 && s.Granted[i] < granted {
 			granted = s.Granted[i] // a CA may grant less than was asked for, never more
 		}
-		c := &ssh.Certificate{Key: pub, Serial: uint64(idx*10 + i), CertType: ssh.UserCert, KeyId: req.KeyId, ValidPrincipals: req.Principals,
+		serial := uint64(idx*10 + i)
+		if s.Idempotent {
+			serial = uint64(i)
+		}
+		c := &ssh.Certificate{Key: pub, Serial: serial, CertType: ssh.UserCert, KeyId: req.KeyId, ValidPrincipals: req.Principals,
 			ValidAfter: va, ValidBefore: va + granted, Permissions: ssh.Permissions{Extensions: req.Extensions}}
+		ck := fmt.Sprintf("%s|%s|%d", req.PublicKey, req.KeyId, i)
+		if prev, ok := s.cache[ck]; ok && s.Idempotent {
+			certs = append(certs, prev) // byte-identical certificate for the same request (the nonce makes a fresh one differ)
+			continue
+		}
 		if err := c.SignCert(rand.Reader, fix.SSHCA()); err != nil {
 			panic(err)
+		}
+		if s.Idempotent {
+			if s.cache == nil {
+				s.cache = map[string]ssh.PublicKey{}
+			}
+			parsed, _ := ssh.ParsePublicKey(c.Marshal()) // a fresh object per issue, same bytes
+			_ = parsed
+			s.cache[ck] = c
 		}
 		certs = append(certs, c)
 	}
